@@ -390,7 +390,8 @@ def ops_for(mode, tier, light=False):
     return ops
 
 
-COPIES = ["copy"] + ["deepcopy"] + ["pickle%d" % p for p in range(6)]
+COPIES = ["copy"] + ["deepcopy"] + ["pickle%d" % p for p in range(6)] + \
+    ["deepcopy-value", "owner-collected"]
 
 
 def copy_check(ctx, mode, state):
@@ -413,6 +414,22 @@ def copy_check(ctx, mode, state):
                 if mode == "owner":
                     continue         # whole-object shallow copy: C14's subject
                 dup = copy.copy(src)
+            elif how == "deepcopy-value":
+                if mode != "owner":
+                    continue
+                # deep copy of the trait value itself (detached from owner)
+                dup = COwner()
+                dup.__dict__["s"] = copy.deepcopy(src.s)
+            elif how == "owner-collected":
+                if mode != "owner":
+                    continue
+                # the value outlives its owner
+                import gc
+                dup = COwner()
+                keep = src.s
+                h.owner = src = None
+                gc.collect()
+                dup.__dict__["s"] = keep
             elif how == "deepcopy":
                 dup = copy.deepcopy(src)
             else:
@@ -421,6 +438,8 @@ def copy_check(ctx, mode, state):
             bad("raises", "%s raised %s: %s" % (how, type(e).__name__, e))
             continue
         s2 = dup.s if mode == "owner" else dup
+        if how == "owner-collected":
+            h.s = type(s2)(s2.trait, None, s2.name, set(s2))
         if set(s2) != set(h.s) or typed(s2) != typed(h.s):
             bad("unequal", "copy %r != original %r" % (set(s2), set(h.s)))
         if type(s2) is not type(h.s):
